@@ -126,6 +126,16 @@ package rdb
 //@ ensures len(result0) == len(keys) && len(result1) == len(keys)
 //@ ensures fresh(result0) && fresh(result1)
 
+// FindClosest (cgo iterator seek, abstracted): ghost record of the key asked for and of the key/value found
+//@ ghostvar closestAsked slice
+//@ ghostvar closestKey slice
+//@ ghostvar closestVal slice
+//@ func RDB.FindClosest
+//@ trusted
+//@ updates closestAsked, closestKey, closestVal
+//@ ensures closestAsked == key && closestKey == result0 && closestVal == result1
+//@ ensures result2 != nil ==> result0 == nil && result1 == nil
+
 //@ func RDB.FindFirst
 //@ requires recv.db != nil
 //@ ensures[idx] err == nil && result1 >= 0 ==> result1 < len(keys) && len(result0) + 4 <= 4294967296 + 4
